@@ -184,15 +184,81 @@ def reduce_rules(chk, repo):
         chk.ob('C20-e', 'U-axis', f.key, 'reshape to (n0//f, f, n1//f, f) and sum the two factor axes',
                p.ret == want, f'returns {fmt(p.ret)}', f.loc(p.node))
     # centroid
-    f, paths, _ = analyse(repo, 'util.centroid')
+    centroid_rule(chk, repo, 'C20-e')
+
+
+def centroid_rule(chk, repo, clause):
+    """centroid component k = sum(img * index along axis k) / sum(img): the weight grid is evaluated
+    element-wise, however it is built (mgrid, meshgrid, broadcast aranges, the mesh helper)."""
+    from ..elem import ElemEval, Unsupported
+    from ..shapes import Shapes, declare_2d
+
+    def uses_outside_shape(v, name):
+        """does v depend on the *values* of `name` (not only on the shape of something derived from it)?"""
+        def walk(x):
+            if isinstance(x, Poly):
+                return any(walk(a) for m, _ in x.terms for a, _e in m)
+            if isinstance(x, Tup):
+                return any(walk(i) for i in x.items)
+            if isinstance(x, Slice):
+                return walk(x.lo) or walk(x.hi) or walk(x.step)
+            if isinstance(x, tuple):
+                if x == ('sym', name):
+                    return True
+                if len(x) == 3 and x[0] == 'attr' and x[2] in ('shape', 'dtype', 'ndim', 'size'):
+                    return False
+                return any(walk(i) for i in x)
+            return False
+        return walk(v)
+    f, paths, _ = analyse(repo, 'util.centroid', inline=['helper.mesh'])
     for p in returns(paths):
         if not (isinstance(p.ret, Tup) and len(p.ret) == 2):
             raise AnalysisError('util.centroid does not return a pair')
+        i_, j_ = S('@i'), S('@j')
         for ax in (0, 1):
-            grids = [a for a in nf.value_atoms(p.ret.items[ax]) if is_app(a, 'mgrid')]
-            ok = len(grids) == 1 and grids[0][2][-1] == C(ax)
-            chk.ob('C20-e', 'U-axis', f.key, f'component {ax} weights the axis-{ax} index grid', ok,
-                   f'uses mgrid component {[fmt(g[2][-1]) for g in grids]}', f.loc(p.node))
+            comp = p.ret.items[ax]
+            ok, det = None, 'undecided: component is not a weighted sum over an index grid'
+            prods = sorted([a for a in nf.value_atoms(comp) if is_app(a, ('dot', 'sum', 'vdot', 'inner'))], key=nf.akey)
+            cands = []
+            for a in prods:
+                if a[1] in ('dot', 'vdot', 'inner') and len(a[2]) >= 2:
+                    cands += [(a[2][0], a[2][1], a), (a[2][1], a[2][0], a)]
+                elif a[1] == 'sum' and isinstance(a[2][0], Poly) and len(a[2][0].terms) == 1:
+                    mono = a[2][0].terms[0][0]
+                    for at, e in mono:
+                        if not uses_outside_shape(Poly.atom(at), 'img'):
+                            cands.append((Poly.atom(at).pow(e), a[2][0] / Poly.atom(at).pow(e), a))
+            for W, V, src in sorted(cands, key=lambda t: nf.vkey(t[0])):
+                if uses_outside_shape(W, 'img') or not uses_outside_shape(V, 'img'):
+                    continue
+                Wg = nf.strip_apps(W, ('m:ravel', 'm:flatten', 'copy', 'cast'))
+                try:
+                    shp = Shapes(declare_2d('img'), assume_scalar=True)
+                    el = ElemEval(shp).at(Wg, (i_, j_))
+                    wshape = shp.of(Wg)
+                    ishape = shp.of(S('img'))
+                except Unsupported as ex:
+                    det = f'undecided: weight grid not understood element-wise ({ex})'
+                    continue
+                # the remaining factor (offsets added outside the sum) must vanish: component = sum(V*index)
+                want = i_ if ax == 0 else j_
+                def norm_dim(d):
+                    # (expr).shape[k] -> dimension k of expr
+                    da = d.single_atom() if isinstance(d, Poly) else None
+                    if da is not None and da[0] == 'idx' and da[1][0] == 'attr' and da[1][2] == 'shape' \
+                            and isinstance(da[2], Poly) and da[2].const_value() is not None and da[1][1][0] != 'sym':
+                        base = da[1][1]
+                        inner = shp.of(base[1]) if base[0] == 'val' else shp.atom(base)
+                        if inner is not None and int(da[2].const_value()) < len(inner):
+                            return norm_dim(inner[int(da[2].const_value())])
+                    return d
+                same_shape = wshape is not None and ishape is not None and len(wshape) == 2 and \
+                    all(norm_dim(a) == norm_dim(b) for a, b in zip(wshape, ishape))
+                ok = el == want and comp == Poly.atom(src) and same_shape
+                det = f'weight[i, j] = {fmt(el)[:80]}, grid shape {tuple(map(fmt, wshape)) if wshape else "?"}' + \
+                    ('' if ok else f'; image shape {tuple(map(fmt, ishape)) if ishape else "?"}; component = {fmt(comp)[:100]}')
+                break
+            chk.ob(clause, 'U-axis', f.key, f'component {ax} weights the axis-{ax} index grid', ok, det, f.loc(p.node))
 
 
 def HALFN(n, f):
